@@ -88,5 +88,7 @@ example : clausePreload { preloads := ["p1", "p2", "p3"] } [.tEpilog, .tPreload 
     .meh false "boom p2", .start, .cycle 1, .exitLoop] ≠ [] := by decide
 example : clausePreload { preloads := ["p1", "p2", "p3"] } [.tEpilog, .tPreload "p1", .tPreload "p2", .xErr "p2",
     .meh false "boom p2", .tPreload "p3", .start, .cycle 1, .exitLoop] = [] := by decide
+-- ... and a file loaded only after backend() was entered does not count
+example : clausePreload { preloads := ["p1"] } [.tEpilog, .start, .tPreload "p1", .cycle 1, .exitLoop] ≠ [] := by decide
 
 end NV.C09
